@@ -231,6 +231,132 @@ def r07_3(run, model):
                witness="{T:int32,U:bool} and {U:bool,T:int32} give two instances/names")
 
 
+def _arm_lets(f, node):
+    """lets of the top-level match arm of f that contains node (a `let` of another arm is not in scope)"""
+    ms = [m for m in S.find(f.body, "Match")]
+    scope = f.body
+    if ms:
+        for arm in ms[0]["arms"]:
+            if S.span_contains(arm["sp"], node["sp"]):
+                scope = arm["body"]
+                break
+    lets = {}
+    for l in S.find(scope, "Local"):
+        if l["pat"]["k"] == "PIdent" and l.get("init") is not None:
+            lets[l["pat"]["name"]] = l["init"]
+    return lets
+
+
+class _ScopedLets(dict):
+    """name -> init of the nearest `let` that precedes `node` in a block enclosing it"""
+
+    def __init__(self, f, node):
+        super().__init__()
+        best = {}
+        for blk in S.find(f.body, "Block"):
+            if not S.span_contains(blk["sp"], node["sp"]):
+                continue
+            for st in blk["stmts"]:
+                if st["k"] == "Local" and st["pat"]["k"] == "PIdent" and st.get("init") is not None and \
+                        (st["sp"][2], st["sp"][3]) <= (node["sp"][0], node["sp"][1]):
+                    nm = st["pat"]["name"]
+                    key = (st["sp"][0], st["sp"][1])
+                    if nm not in best or key > best[nm][0]:
+                        best[nm] = (key, st["init"])
+        for k_, (_, init) in best.items():
+            self[k_] = init
+
+
+def r07_7(run, model):
+    run.rule("R07.7", "an instance is requested under the name of the generic definition that was found: the first argument of "
+                      "ensure_instance in mono_expr comes from `callee.name` (methods of a generic impl are stored under the generic name; "
+                      "the call-site name is not a key of the function table)")
+    f = model.fn("mono_expr", MONO)
+    lets = {}
+    for l in S.find(f.body, "Local"):
+        if l["pat"]["k"] == "PIdent" and l.get("init") is not None:
+            lets[l["pat"]["name"]] = l["init"]
+    n = 0
+    for c in S.walk(f.body):
+        if c["k"] == "MethodCall" and c["method"] == "ensure_instance" and c["args"]:
+            n += 1
+            a = c["args"][0]
+            ids = S.idents(a)
+            src = " ".join(S.norm_ws(run.facts.text(MONO, lets[i]["sp"])) for i in ids if i in lets) or S.norm_ws(run.facts.text(MONO, a["sp"]))
+            ok = re.search(r"\bcallee\.name\b", src) is not None or re.search(r"\bcallee\.name\b", S.norm_ws(run.facts.text(MONO, a["sp"]))) is not None
+            run.ob("R07.7", f"mono_expr|instance #{n} requested under the definition's name", ok, site(MONO, c["sp"]), f"ensure_instance({S.norm_ws(run.facts.text(MONO, a['sp']))}, ..) where it is `{src[:50]}`",
+                   witness="impl[T] Maybe[T] { fn or_else(..) }: m.or_else(0) queues `inherent#Maybe#Maybe[int32]#or_else`, mono panics `unknown function`")
+    run.floor("ensure_instance calls in mono_expr", n, 1)
+
+
+def r07_9(run, model):
+    run.rule("R07.9", "a call is redirected to a specialised function only through ensure_instance: every function name mono_expr writes into a "
+                      "rebuilt callee (MonoExpr::EVar { name: N }) is the unchanged call-site name, the result of ensure_instance, or a trait "
+                      "impl name built by trait_impl_fn_name - never a remembered instance name (polymorphic recursion f[A,B] -> f[B,A])")
+    f = model.fn("mono_expr", MONO)
+    lets = {}
+    for l in S.find(f.body, "Local"):
+        if l["pat"]["k"] == "PIdent" and l.get("init") is not None:
+            lets[l["pat"]["name"]] = l["init"]
+    n = 0
+    for st in S.find(f.body, "Struct"):
+        if st["segs"][0] != "MonoExpr" or st["segs"][-1] != "EVar":
+            continue
+        lets = _ScopedLets(f, st)
+        for fl in st["fields"]:
+            if fl["name"] != "name":
+                continue
+            e = fl["expr"]
+            t = S.norm_ws(run.facts.text(MONO, e["sp"]))
+            if e["k"] == "Path" and len(e["segs"]) == 1 and e["segs"][0] == "name":
+                continue  # the arm for a variable: pattern-bound name passed through
+            n += 1
+            src = t
+            if e["k"] == "Path" and len(e["segs"]) == 1 and e["segs"][0] in lets:
+                src = S.norm_ws(run.facts.text(MONO, lets[e["segs"][0]]["sp"]))
+            ok = re.search(r"ensure_instance\(|trait_impl_fn_name\(|inherent_method_fn_name\(", src) is not None
+            run.ob("R07.9", f"mono_expr|callee name `{t[:20]}` comes from ensure_instance", ok, site(MONO, st["sp"]), f"name: {t} = {src[:60]}",
+                   witness="fn alternate[A, B](a: A, b: B, n) { .. alternate(b, a, n - 1) }: the recursive call at swapped types is redirected to the instance being generated: ill-typed Go, the other instance is never generated")
+    run.floor("callee names written by mono_expr", n, 2)
+
+
+MONO_TY_LEDGER = {("EPrim", "ty"): "primitive literal types contain no type parameter"}
+
+
+def r07_8(run, model):
+    run.rule("R07.8", "every type written into a specialised node is substituted: in mono_expr each `ty` / `for_ty` field of a rebuilt MonoExpr is "
+                      "`subst_ty(..)`, a local bound to it, or the type of an already specialised child")
+    f = model.fn("mono_expr", MONO)
+    lets = {}
+    for l in S.find(f.body, "Local"):
+        if l["pat"]["k"] == "PIdent" and l.get("init") is not None:
+            lets[l["pat"]["name"]] = l["init"]
+    n = 0
+    for st in S.find(f.body, "Struct"):
+        if st["segs"][0] != "MonoExpr":
+            continue
+        lets = _ScopedLets(f, st)
+        for fl in st["fields"]:
+            if fl["name"] not in ("ty", "for_ty"):
+                continue
+            n += 1
+            e = fl["expr"]
+            t = S.norm_ws(run.facts.text(MONO, e["sp"]))
+            ok = "subst_ty(" in t or ".get_ty()" in t
+            if not ok and e["k"] == "Path" and len(e["segs"]) == 1 and e["segs"][0] in lets:
+                it = S.norm_ws(run.facts.text(MONO, lets[e["segs"][0]]["sp"]))
+                ok = "subst_ty(" in it or ".get_ty()" in it or "inst_" in it
+                if not ok:
+                    # built from already specialised pieces (e.g. Ty::TFunc { params: param_tys, ret_ty: new_ty })
+                    pieces = [i for i in S.idents(lets[e["segs"][0]]) if i in lets]
+                    ok = bool(pieces) and all(re.search(r"subst_ty\(|\.get_ty\(\)", S.norm_ws(run.facts.text(MONO, lets[i]["sp"]))) for i in pieces)
+            led = MONO_TY_LEDGER.get((st["segs"][-1], fl["name"]))
+            run.ob("R07.8", f"mono_expr|{st['segs'][-1]}.{fl['name']} is substituted" + ("" if ok or led else f" (`{t[:24]}`)"), ok or led is not None, site(MONO, st["sp"]),
+                   f"{fl['name']}: {t[:50]}" + (f"; ledger: {led}" if led and not ok else ""),
+                   witness="fn pair[T](x: T, y: T) { let arr = [x, y]; .. }: the literal keeps type [T; 2]; the emitted Go declares `var arr [2]T`")
+    run.floor("type fields of rebuilt nodes in mono_expr", n, 20)
+
+
 def r07_4(run, model):
     run.rule("R07.4", "a call site's substitution is derived from the argument types and from the result type: in mono_expr's call arm "
                       "unify is applied to each parameter/argument pair and, unconditionally, to (callee return type, call type)")
@@ -365,6 +491,9 @@ def r07_6(run, model):
 def run(run, model):
     run.try_rule(r07_1, model)
     run.try_rule(r07_2, model, None, "C07")
+    run.try_rule(r07_7, model)
+    run.try_rule(r07_8, model)
+    run.try_rule(r07_9, model)
     run.try_rule(r07_3, model)
     run.try_rule(r07_4, model)
     run.try_rule(r07_5, model)
